@@ -2,6 +2,7 @@
 import numpy as np
 
 from vmon import domain, gen, instr, models, scen
+from vmon.oracles import unit as oracles_unit
 
 from vmon.scale import S
 
@@ -49,7 +50,7 @@ def plan(tier, seed):
             o = scen.sample_opts(rng, kind, lead)
             o.pop('aligner', None)
             iters = int(pick([1, 2, 3, 5, 10])) if kind != 'cbmm' else int(pick([1, 2]))
-            cases.append(dict(lane='mixture', kind=kind, cls=ccls, tag=cls, K=K, N=N, D=D, lead=lead, dtype=dtype, init=init, iters=iters, opts=o, rs=[seed, 9, i]))
+            cases.append(dict(lane='mixture', kind=kind, cls=ccls, tag=cls, K=K, N=N, D=D, lead=lead, dtype=dtype, init=init, iters=iters, opts=o, offset=float(pick([0, 0, 0, 1e5])) if kind in ('gmm', 'gcacgmm') and cls == 'gauss' else 0.0, rs=[seed, 9, i]))
             i += 1
     m = S(tier, 20, 200)
     for fam in ('gauss', 'diag', 'spher', 'ccsg', 'vmf', 'watson', 'cacg', 'bingham'):
@@ -135,6 +136,8 @@ def run_dist(case, R):
     fam, D, N, lead = case['fam'], case['D'], case['N'], tuple(case['lead'])
     real = fam in ('gauss', 'diag', 'spher', 'vmf')
     y = rng.standard_normal((*lead, N, D)) if real else gen.cnormal(rng, (*lead, N, D))
+    if real and case['rs'][-1] % 4 == 0:
+        y = y + oracles_unit(rng.standard_normal((1,) * len(lead) + (1, D))) * float(rng.choice([1e4, 1e5, 1e6]))     # far from the origin
     cls = case['cls']
     if cls in ('short', 'short1'):
         cls = 'gauss'
